@@ -54,6 +54,10 @@ def concretize(c, tag=False):
             n, cp = x["n"], x["cp"]
             if n == "map":
                 body = f'map({cpfx(cp)}{"R" if enum else "r"}{i}{sfx(cp)})'
+            elif n == "map_bare":
+                body = "map"
+            elif n == "map_action":
+                body = f"map({cpfx(cp)}~.clone())"
             elif n == "ghost_nd":
                 body = f"ghost({cp})" if cp != "-" else "ghost"
             elif n == "ghost_d":
@@ -146,11 +150,12 @@ def classify(msgs):
 
 def run(tier, seed):
     ctx = core.Ctx("C15", tier, seed, LEVEL)
-    cfgs = ["MC_C15_q1", "MC_C15_q2", "MC_C15_q3", "MC_C15_q4", "MC_C15_q5"]
+    cfgs = ["MC_C15_q1", "MC_C15_q2", "MC_C15_q3", "MC_C15_q4", "MC_C15_q5", "MC_C15_q6"]
     import streams
     cases = []
     for cfg in cfgs:
-        cases += streams.tlc_cases(ctx, "MC_C15", cfg, None, seed, timeout=1500)
+        # quick: at most 25 000 inputs per configuration (seeded sample, noted in the evidence); thorough judges all of them
+        cases += streams.tlc_cases(ctx, "MC_C15", cfg, 25000 if tier == "quick" else None, seed, timeout=1500)
     seen, uniq = set(), []
     for c in cases:
         k = json.dumps(c, sort_keys=True)
@@ -158,12 +163,6 @@ def run(tier, seed):
             seen.add(k)
             uniq.append(c)
     cases = uniq
-    if tier == "quick" and len(cases) > 100000:
-        import random
-        rnd = random.Random(seed)
-        keep = set(rnd.sample(range(len(cases)), 100000))
-        cases = [c for i, c in enumerate(cases) if i in keep]
-        ctx.notes.append("quick tier: uniform sample of 100000 of the enumerated inputs (seeded); thorough judges all")
     srcs = [concretize(c) for c in cases]
     runs = core.expand([{"id": i, "src": s} for i, s in enumerate(srcs)], "syn1")
     trace = []
